@@ -63,6 +63,8 @@ type Exec struct {
 	nonnil   map[string]bool
 	knownLen map[string]int
 	unfolded map[string]bool
+	autoExcl map[string]bool
+	Active   map[string]*Contract // schema contracts usable at recursive call sites
 	depth    int
 	stack    []*ssa.Function
 	goalSeq  map[string]int
